@@ -138,7 +138,7 @@ impl<K: Ord, V> BTreeMap<K, V> {
     }
 
     pub fn iter(&self) -> Iter<'_, K, V> {
-        Iter { inner: self.slots.iter() }
+        Iter { slots: &self.slots, pos: 0 }
     }
 
     pub fn iter_mut(&mut self) -> IterMut<'_, K, V> {
@@ -146,27 +146,32 @@ impl<K: Ord, V> BTreeMap<K, V> {
     }
 
     pub fn values(&self) -> Values<'_, K, V> {
-        Values { inner: self.slots.iter() }
+        Values { slots: &self.slots, pos: 0 }
     }
 
     pub fn keys(&self) -> Keys<'_, K, V> {
-        Keys { inner: self.slots.iter() }
+        Keys { slots: &self.slots, pos: 0 }
     }
 }
 
+// The shared iterators walk the slot array with an explicit position that advances unconditionally, so the position is a
+// constant on every path whenever the occupancy of the slots is (occupied slots are a prefix): the solver sees the end of
+// the iteration syntactically instead of unrolling every consuming loop to the unwind bound.
 pub struct Iter<'a, K, V> {
-    inner: core::slice::Iter<'a, Option<(K, V)>>,
+    slots: &'a [Option<(K, V)>; SEL_CAP],
+    pos: usize,
 }
 impl<'a, K, V> Iterator for Iter<'a, K, V> {
     type Item = (&'a K, &'a V);
     fn next(&mut self) -> Option<Self::Item> {
-        loop {
-            match self.inner.next() {
-                None => return None,
-                Some(Some((k, v))) => return Some((k, v)),
-                Some(None) => {},
+        while self.pos < SEL_CAP {
+            let i = self.pos;
+            self.pos += 1;
+            if let Some((k, v)) = &self.slots[i] {
+                return Some((k, v));
             }
         }
+        None
     }
 }
 
@@ -187,34 +192,38 @@ impl<'a, K, V> Iterator for IterMut<'a, K, V> {
 }
 
 pub struct Values<'a, K, V> {
-    inner: core::slice::Iter<'a, Option<(K, V)>>,
+    slots: &'a [Option<(K, V)>; SEL_CAP],
+    pos: usize,
 }
 impl<'a, K, V> Iterator for Values<'a, K, V> {
     type Item = &'a V;
     fn next(&mut self) -> Option<Self::Item> {
-        loop {
-            match self.inner.next() {
-                None => return None,
-                Some(Some((_, v))) => return Some(v),
-                Some(None) => {},
+        while self.pos < SEL_CAP {
+            let i = self.pos;
+            self.pos += 1;
+            if let Some((_, v)) = &self.slots[i] {
+                return Some(v);
             }
         }
+        None
     }
 }
 
 pub struct Keys<'a, K, V> {
-    inner: core::slice::Iter<'a, Option<(K, V)>>,
+    slots: &'a [Option<(K, V)>; SEL_CAP],
+    pos: usize,
 }
 impl<'a, K, V> Iterator for Keys<'a, K, V> {
     type Item = &'a K;
     fn next(&mut self) -> Option<Self::Item> {
-        loop {
-            match self.inner.next() {
-                None => return None,
-                Some(Some((k, _))) => return Some(k),
-                Some(None) => {},
+        while self.pos < SEL_CAP {
+            let i = self.pos;
+            self.pos += 1;
+            if let Some((k, _)) = &self.slots[i] {
+                return Some(k);
             }
         }
+        None
     }
 }
 
